@@ -1,4 +1,5 @@
 import Asn1cModel.Proofs.L2Uper
+import Asn1cModel.Impl.PerSizeAlpha
 /-
   C02 (UPER part) / C01: property theorems about the reference UNALIGNED PER codec `L2.encUPER` / `L2.decUPER`
   (`L2/Uper.lean`, written from ITU-T X.691), the oracle the C encoder's bytes are compared with.
@@ -428,5 +429,148 @@ theorem ref_F28_witness :
     encUPERbytes t (.choice 0 .null) = some [0x80] ∧ encUPERbytes t (.choice 1 .null) = some [0x00] ∧
       encUPERbytes t (.choice 2 .null) = some [0x40] := by
   refine ⟨?_, ?_, ?_⟩ <;> (simp only [encUPERbytes, encUPER, encAlt]; decide +kernel)
+
+/-! ## the size / alphabet decisions of the C encoders (`Impl.PerSizeAlpha`) are those of the reference
+
+  F112 and F114 are repaired: the guarded regions of the K leg (types with `SIZE(lb..MAX,...)`, permitted alphabets
+  whose largest value is exactly `2^b`) are gone, and the decisions the repaired C expressions take are proved to be
+  the reference's for every constraint and every count / alphabet. -/
+section ImplDecisions
+open Asn1c.Impl.PerSizeAlpha
+
+/-- the table row asn1c emits for an effective size constraint (`emit_single_member_PER_constraint`, the subject
+    of C09): semi-constrained rows carry `effective_bits = -1` and `upper_bound = 0` -/
+def ctOfSize (sz : SizeC) : Ct :=
+  match sz.ub with
+  | none => ⟨true, sz.ext, -1, sz.lb, 0⟩
+  | some u => ⟨false, sz.ext, if u < 65536 then (bitWidth (u + 1 - sz.lb) : Nat) else -1, sz.lb, u⟩
+
+/-- X.691 §10.9.4.1: the count is a constrained whole number iff there is an upper bound below 64K -/
+def countConstrained (sz : SizeC) : Bool :=
+  match sz.ub with
+  | some u => decide (u < 65536)
+  | none => false
+
+theorem notInRoot_eq_spec (sz : SizeC) (n : Nat) : notInRoot (ctOfSize sz) n = !sizeInRoot sz n := by
+  rw [Bool.eq_iff_iff]
+  cases hu : sz.ub with
+  | none => simp [notInRoot, ctOfSize, sizeInRoot, hu]
+  | some u => simp [notInRoot, ctOfSize, sizeInRoot, hu]
+
+theorem ebits_eq_spec (sz : SizeC) : decide (0 ≤ (ctOfSize sz).ebits) = countConstrained sz := by
+  cases hu : sz.ub with
+  | none => simp [ctOfSize, countConstrained, hu]
+  | some u =>
+    by_cases h : u < 65536
+    · simp [ctOfSize, countConstrained, hu, h]
+    · simp [ctOfSize, countConstrained, hu, h]
+
+theorem size_head_eq_spec (sz : SizeC) (n : Nat) (hext : sz.ext = true) :
+    setOfHead (ctOfSize sz) n = some ([!sizeInRoot sz n], sizeInRoot sz n && countConstrained sz) ∧
+    octetStringHead (ctOfSize sz) n = some ([!sizeInRoot sz n], countConstrained sz && sizeInRoot sz n) := by
+  have he : (ctOfSize sz).ext = true := by unfold ctOfSize; split <;> exact hext
+  simp only [setOfHead, octetStringHead, he, notInRoot_eq_spec, ebits_eq_spec, if_true, Bool.not_not,
+    Bool.or_true, Bool.true_and, Bool.not_true, Bool.and_false, Bool.false_eq_true, if_false]
+  exact ⟨trivial, trivial⟩
+
+theorem size_head_nonext_root (sz : SizeC) (n : Nat) (hext : sz.ext = false) (hr : sizeInRoot sz n = true) :
+    setOfHead (ctOfSize sz) n = some ([], countConstrained sz) ∧
+    octetStringHead (ctOfSize sz) n = some ([], countConstrained sz) := by
+  have he : (ctOfSize sz).ext = false := by unfold ctOfSize; split <;> exact hext
+  simp [setOfHead, octetStringHead, he, notInRoot_eq_spec, ebits_eq_spec, hr]
+
+/-- a count outside a non-extensible size constraint with a constrained count is refused (as the reference does) -/
+theorem size_head_nonext_out (sz : SizeC) (n : Nat) (hext : sz.ext = false) (hr : sizeInRoot sz n = false)
+    (hc : countConstrained sz = true) :
+    setOfHead (ctOfSize sz) n = none ∧ octetStringHead (ctOfSize sz) n = none := by
+  have he : (ctOfSize sz).ext = false := by unfold ctOfSize; split <;> exact hext
+  simp [setOfHead, octetStringHead, he, notInRoot_eq_spec, ebits_eq_spec, hr, hc]
+
+/-- **The extension bit of an extensible SIZE constraint is the X.691 bit** (§16.6 / §17.3 / §20.4 / §30.5.7 →
+    `L2.encSized`), for every constraint shape — `SIZE(lb..ub,...)`, `SIZE(lb..MAX,...)` (finding F112 repaired), an
+    upper bound of 64K and more — and every count: the first bit of the reference encoding is the bit
+    `SET_OF_encode_uper` / `SEQUENCE_OF_encode_uper` / `OCTET_STRING_encode_uper` write, and the count follows as a
+    constrained whole number exactly when the reference writes one. -/
+theorem size_extension_bit_eq_spec (sz : SizeC) (items : List Bits) (bits : Bits) (hext : sz.ext = true)
+    (h : encSized sz items = some bits) :
+    ∃ b tail, bits = b :: tail ∧
+      setOfHead (ctOfSize sz) items.length = some ([b], !b && countConstrained sz) ∧
+      octetStringHead (ctOfSize sz) items.length = some ([b], countConstrained sz && !b) ∧
+      tail = (if b then lengthPrefixed (items.length + 1) items else encCounted sz.lb sz.ub items) := by
+  obtain ⟨h1, h2⟩ := size_head_eq_spec sz items.length hext
+  unfold encSized at h
+  by_cases hr : sizeInRoot sz items.length = true
+  · simp only [hr, if_true, hext, Option.some.injEq] at h
+    refine ⟨false, encCounted sz.lb sz.ub items, by simpa using h.symm, ?_, ?_, by simp⟩
+    · rw [h1, hr]; rfl
+    · rw [h2, hr]; simp
+  · have hr2 : sizeInRoot sz items.length = false := by simpa using hr
+    simp only [hr2, hext, if_true, Bool.false_eq_true, if_false, Option.some.injEq] at h
+    refine ⟨true, lengthPrefixed (items.length + 1) items, by simpa using h.symm, ?_, ?_, by simp⟩
+    · rw [h1, hr2]; rfl
+    · rw [h2, hr2]; simp
+
+/-- the former F112 witnesses: 2 elements of `SEQUENCE (SIZE(2..MAX,...)) OF` are in the root (bit 0; the
+    expression before the repair said "not in root": bit 1 for EVERY count ≥ lb), one octet of
+    `OCTET STRING (SIZE(2..MAX,...))` is not (bit 1) -/
+theorem former_F112_witness :
+    setOfHead (ctOfSize ⟨2, none, true⟩) 2 = some ([false], false) ∧
+    octetStringHead (ctOfSize ⟨2, none, true⟩) 1 = some ([true], false) ∧
+    notInRootF112 (ctOfSize ⟨2, none, true⟩) 2 = true := by decide
+
+/-! ### characters by value or by index -/
+
+/-- **§30.5.4: by value iff the largest character value fits in `b` bits** (`ub ≤ 2^b − 1`; finding F114
+    repaired: the code tested `ub ≤ 2^b`) -/
+theorem chars_by_value_eq_spec (alpha : Alpha) (h0 : 0 < charWidth alpha) (hw : charWidth alpha ≤ 63)
+    (hub : alphaMax alpha < 2 ^ 64) :
+    charsByValue (charWidth alpha) (alphaMax alpha) = byValue alpha := by
+  have h2 : 2 * 2 ^ (charWidth alpha - 1) = 2 ^ charWidth alpha := by
+    rw [← Nat.pow_succ']; congr 1; omega
+  have hlt : 2 ^ charWidth alpha < 2 ^ 64 := Nat.pow_lt_pow_right (by decide) (by omega)
+  simp only [charsByValue, byValue, h2, Nat.mod_eq_of_lt hub, Nat.mod_eq_of_lt hlt, h0, decide_true, Bool.true_and]
+
+/-- a permitted alphabet that is one range `lo..hi` (no generated map): the code written for a character of the
+    alphabet is the reference's — the value, or the index `c − lo` when `hi > 2^b − 1` -/
+theorem put_char_code_eq_spec (lo hi c : Nat) (hlo : lo ≤ c) (hhi : c ≤ hi)
+    (h0 : 0 < charWidth [(lo, hi)]) (hw : charWidth [(lo, hi)] ≤ 63) (hub : hi < 2 ^ 64) :
+    (putCharCode (charWidth [(lo, hi)]) lo hi c).map (nnbi (charWidth [(lo, hi)])) = encChar [(lo, hi)] c := by
+  have hmax : alphaMax [(lo, hi)] = hi := by simp [alphaMax]
+  have hbv := chars_by_value_eq_spec [(lo, hi)] h0 hw (by rw [hmax]; exact hub)
+  rw [hmax] at hbv
+  have hidx : alphaIndex c [(lo, hi)] = some (c - lo) := by simp [alphaIndex, hlo, hhi]
+  unfold putCharCode encChar
+  rw [hbv, hidx]
+  cases byValue [(lo, hi)] with
+  | true => simp [hhi]
+  | false =>
+    have : ¬ (c < lo ∨ c > hi) := by omega
+    simp [this]
+
+/-- what is written is read back -/
+theorem char_code_roundtrip (w lb ub v code : Nat) (h : putCharCode w lb ub v = some code) :
+    getCharValue w lb ub code = some v := by
+  unfold putCharCode at h
+  unfold getCharValue
+  by_cases hb : charsByValue w ub = true
+  · simp only [hb, if_true] at h ⊢
+    by_cases hv : v ≤ ub
+    · simp only [hv, if_true, Option.some.injEq] at h; subst h; simp [hv]
+    · simp [hv] at h
+  · simp only [hb, Bool.false_eq_true, if_false] at h ⊢
+    by_cases hv : v < lb ∨ v > ub
+    · simp [hv] at h
+    · simp only [hv, if_false, Option.some.injEq] at h; subst h
+      have : ¬ (v - lb + lb > ub) := by omega
+      simp only [this, if_false]; congr 1; omega
+
+/-- the former F114 witness `IA5String (FROM(" ".."@"))`: N = 33, b = 6, ub = 64 = 2^6: by index — '@' is written
+    as 32 and read back, ' ' as 0 (before the repair: by value, '@' = 64 truncated to 000000 and read back as NUL) -/
+theorem former_F114_witness :
+    charWidth [(32, 64)] = 6 ∧ charsByValue 6 64 = false ∧ charsByValueF114 6 64 = true ∧
+    putCharCode 6 32 64 0x40 = some 32 ∧ getCharValue 6 32 64 32 = some 0x40 ∧ putCharCode 6 32 64 0x20 = some 0 := by
+  decide
+
+end ImplDecisions
 
 end Asn1c.Props.C02Uper
